@@ -1,9 +1,16 @@
 (* C10 driver.  argv[1] = cases, argv[2] = "-" (implementation output not needed), argv[3] = variant:
-     repaired | defective (all three defects) | def_<d>[_<d>...] with d in hb (dual standby never promotes),
-   if (interface notifications counted), fc (first heartbeat after a loss only recorded): exactly those defects
+     repaired (all five repairs) | defective (none) | def_<d>[_<d>...] = exactly those defects present, d in
+     hb (dual standby never promotes), if (interface notifications counted), fc (dual active needs a 2nd exchange),
+     sa (STANDBY_ALONE with a known peer is never left), ia (AdjustPriority outside the m.mu section)
    case:  idA prioA preA decA nifsA idB prioB preB decB nifsB op*
+          id = <n> (node id "node-%05d") or s:<dotted bytes> / s:e (the id string itself)
    ops:   st<w> sd<w> dl<w>:<i> dr<w>:<i> pl<w> pt<w> dn<w>:<k> up<w>:<k> de<w>:<k> sw<w>:<f> rs<w> SW<w>:<f>
           (w = 0 for node A, 1 for node B; SW = local switchover + delivered RPC = sw<w>:<f> then rs<other>)
+          overlap: pD<w>:<i> start handling heartbeat i, park it in the publication of ->READY (if any)
+                   pL<w>     start handlePeerLost, park it between its m.mu section and sm.PeerLost
+                   pS<w>     start handlePeerLost, park it in the publication of the PeerLost transition (if any)
+                   rl<w>     let the parked call of w run to its end
+                   (at most one parked call per node; other ops run as whole calls meanwhile)
    output: one token per state (initial state, then after every op):
           <A>|<B>|<transitions>   node = st,eff,peerPrio,peerState,peerKnown,downCount,isActive *)
 let rec z_of_int (i : int) : z = if i = 0 then Z0 else if i > 0 then Zpos (pos_of_int i) else Zneg (pos_of_int (-i))
@@ -40,30 +47,58 @@ let events_of_token tok : ev list =
   | "rs" -> [ESwRemote w]
   | "SW" -> [ESwLocal (w, arg tok = 1); ESwRemote (other w)]
   | _ -> failwith ("bad op " ^ tok)
+let id_of_token t : n list =
+  if String.length t >= 2 && String.sub t 0 2 = "s:" then cps_of_token (String.sub t 2 (String.length t - 2))
+  else List.map (fun c -> n_of_int (Char.code c)) (List.of_seq (String.to_seq (Printf.sprintf "node-%05d" (int_of_string t))))
 let () =
   let vname = if Array.length Sys.argv > 3 then Sys.argv.(3) else "repaired" in
+  let all = ["hb"; "if"; "fc"; "sa"; "ia"] in
+  let mk ds = { fix_hb = not (List.mem "hb" ds); fix_if = not (List.mem "if" ds); fix_fc = not (List.mem "fc" ds);
+                fix_sa = not (List.mem "sa" ds); fix_ia = not (List.mem "ia" ds) } in
   let v =
-    if vname = "repaired" then { fix_hb = true; fix_if = true; fix_fc = true }
-    else if vname = "defective" then { fix_hb = false; fix_if = false; fix_fc = false }
+    if vname = "repaired" then mk []
+    else if vname = "defective" then mk all
     else match String.split_on_char '_' vname with
-      | "def" :: ds when ds <> [] && List.for_all (fun d -> List.mem d ["hb"; "if"; "fc"]) ds ->
-        { fix_hb = not (List.mem "hb" ds); fix_if = not (List.mem "if" ds); fix_fc = not (List.mem "fc" ds) }
+      | "def" :: ds when ds <> [] && List.for_all (fun d -> List.mem d all) ds -> mk ds
       | _ -> failwith ("unknown variant " ^ vname) in
   let lines = read_lines Sys.argv.(1) in
   List.iter (fun line ->
     match tokens line with
     | ia :: pa :: ra :: da :: na :: ib :: pb :: rb :: db :: nb :: ops ->
       (try
-        let mk i p r d n = { c_id = n_of_int (int_of_string i); c_prio = z_of_int (int_of_string p);
-                             c_preempt = (r = "1"); c_dec = z_of_int (int_of_string d);
-                             c_nifs = nat_of_int (int_of_string n) } in
-        let cs = (mk ia pa ra da na, mk ib pb rb db nb) in
-        let s = ref (init_pair cs) in
-        let out = ref [show !s []] in
+        let mkc i p r d n = { c_id = id_of_token i; c_prio = z_of_int (int_of_string p);
+                              c_preempt = (r = "1"); c_dec = z_of_int (int_of_string d);
+                              c_nifs = nat_of_int (int_of_string n) } in
+        let cs = (mkc ia pa ra da na, mkc ib pb rb db nb) in
+        let s = ref (finit cs) in
+        let out = ref [show !s.f_p []] in
+        let ts = ref [] in
+        let fe e = let (s', t) = fstep v cs !s e in s := s'; ts := !ts @ t; t in
+        let rec finish w = if thrs_of w !s <> [] then (ignore (fe (FMicro (w, O))); finish w) in
         List.iter (fun tok ->
-          let ts = ref [] in
-          List.iter (fun e -> let (s', t) = step v cs !s e in s := s'; ts := !ts @ t) (events_of_token tok);
-          out := show !s !ts :: !out) ops;
+          ts := [];
+          if String.length tok < 3 then failwith ("bad op " ^ tok);
+          let w = who_of tok.[2] in
+          (match String.sub tok 0 2 with
+           | "pD" ->
+             if thrs_of w !s <> [] then failwith "two parked calls";
+             ignore (fe (FHb (w, nat_of_int (arg tok))));
+             (* run until PeerDiscovered has published a transition (parked inside Publish), else to the end *)
+             let rec go () = match thrs_of w !s with
+               | [] -> ()
+               | THbDisc _ :: _ -> let t = fe (FMicro (w, O)) in if t = [] then go ()
+               | _ -> ignore (fe (FMicro (w, O))); go () in
+             go ()
+           | "pL" ->
+             if thrs_of w !s <> [] then failwith "two parked calls";
+             ignore (fe (FLost w)); ignore (fe (FMicro (w, O)))
+           | "pS" ->
+             if thrs_of w !s <> [] then failwith "two parked calls";
+             ignore (fe (FLost w)); ignore (fe (FMicro (w, O)));
+             let t = fe (FMicro (w, O)) in if t = [] then finish w
+           | "rl" -> finish w
+           | _ -> List.iter (fun e -> ignore (fe (FCoarse e))) (events_of_token tok));
+          out := show !s.f_p !ts :: !out) ops;
         print_endline (String.concat " " (List.rev !out))
       with Failure m -> print_endline ("badcase " ^ m))
     | _ -> print_endline "badline") lines
